@@ -329,9 +329,33 @@ def _checks_set(name):
     return set()
 
 
+def _canary():
+    """Fixed mini-scenario whose outcome must be the same before and after any history: the constructor's admission
+    checks on fresh objects.  A difference means the history left process-global state behind."""
+    from chempy import Reaction, ReactionSystem
+
+    r1, r2 = Reaction({"A": 1}, {"B": 1}, 1.0, name="n1"), Reaction({"A": 1}, {"B": 1}, 1.0)
+    r3 = Reaction({"B": 1}, {"C": 1}, 2.0, name="n1")
+    out = []
+    for rx, subs in (([r1], "A B"), ([r1, r2], "A B"), ([r1], "A Q"), ([r1, r3], "A B C")):
+        try:
+            ReactionSystem(rx, subs)
+            out.append("ok")
+        except Exception as ex:
+            out.append(core.exc_tag(ex))
+    try:
+        Reaction({"A": 0}, {"B": 0}, 1.0)
+        out.append("ok")
+    except Exception as ex:
+        out.append(core.exc_tag(ex))
+    return out
+
+
 def execute(case):
     import numpy as np
     from chempy import Reaction, Equilibrium, ReactionSystem, Substance
+
+    canary_before = _canary()
 
     keys = case["keys"]
     comps = None
@@ -991,6 +1015,10 @@ def execute(case):
         hist.append(rec)
 
     bump("live_systems", len(live))
+    canary_after = _canary()
+    if canary_after != canary_before:
+        viols.append(core.violation("process_state_leak", "admission of fresh systems changed during the history: %s -> %s" % (canary_before, canary_after),
+                                    {"op": "canary"}, None))
     return {"history": hist, "violations": _dedup(viols), "stats": stats, "states": sorted(states, key=repr)}
 
 
